@@ -167,7 +167,9 @@ pub struct Action {
 }
 
 pub fn system(cfg: &L2Cfg) -> Sys {
-    let c = util::committee(cfg.seed, &cfg.weights);
+    // the placement in which the faulty validator leads view 2 runs on a chain whose genesis starts at block 3
+    // (the other two at block 0), so that `first_block` is not a constant of every explored instance
+    let c = util::committee_fb(cfg.seed, &cfg.weights, if cfg.faulty == 2 { 3 } else { 0 });
     assert_eq!(c.weights[cfg.faulty], 1, "the faulty validator must have weight 1");
     let correct: Vec<usize> = (0..c.n()).filter(|i| *i != cfg.faulty).collect();
     Sys { w: World { c, proposals: vec![Payload(vec![0x58]), Payload(vec![0x59, 1])], invalid_payload: Payload(vec![0xBA, 0xD0]) }, z: cfg.faulty, correct, max_view: cfg.max_view, crashes: cfg.crashes }
